@@ -1,6 +1,7 @@
 package sign
 
 import (
+	"errors"
 	"fmt"
 
 	"github.com/taurusgroup/multi-party-sig/internal/round"
@@ -19,6 +20,13 @@ const (
 
 func StartSignCommon(taproot bool, result *keygen.Config, signers []party.ID, messageHash []byte) protocol.StartFunc {
 	return func(sessionID []byte) (round.Session, error) {
+		if err := result.Validate(); err != nil {
+			return nil, fmt.Errorf("sign.StartSign: %w", err)
+		}
+		if len(messageHash) == 0 {
+			return nil, errors.New("sign.StartSign: message hash is empty")
+		}
+
 		info := round.Info{
 			FinalRoundNumber: protocolRounds,
 			SelfID:           result.ID,
@@ -36,6 +44,14 @@ func StartSignCommon(taproot bool, result *keygen.Config, signers []party.ID, me
 		if err != nil {
 			return nil, fmt.Errorf("sign.StartSign: %w", err)
 		}
+
+		// every signer must hold a share of the key
+		for _, j := range helper.PartyIDs() {
+			if _, ok := result.VerificationShares.Points[j]; !ok {
+				return nil, fmt.Errorf("sign.StartSign: signer %s has no verification share", j)
+			}
+		}
+
 		return &round1{
 			Helper:  helper,
 			taproot: taproot,
